@@ -359,3 +359,53 @@ pub fn nonbaseline_fields(table: &Table, ty: &TypeDef, v: &Val, prefix: &str, ou
         }
     }
 }
+
+/// Visitor form of `enumerate_costed` that does not materialise the value list. `first` selects
+/// the slice of the space in which field `first` is the first deviating field (None: only the
+/// baseline value), so disjoint slices can be handed to different threads.
+pub fn enumerate_visit(table: &Table, ty: &TypeDef, budget: usize, first: Option<usize>, f: &mut dyn FnMut(&Val, usize)) {
+    let base = baseline(table, ty);
+    let Some(first) = first else {
+        f(&base, 0);
+        return;
+    };
+    if budget == 0 {
+        return;
+    }
+    let alts: Vec<Vec<(Val, usize)>> = ty
+        .fields
+        .iter()
+        .enumerate()
+        .map(|(i, fd)| if i >= first { field_alternatives(table, fd, budget) } else { vec![] })
+        .collect();
+    fn rec(i: usize, cur: &mut Vec<Val>, cost: usize, budget: usize, alts: &Vec<Vec<(Val, usize)>>, f: &mut dyn FnMut(&Val, usize)) {
+        if i == alts.len() {
+            let v = Val::Struct(std::mem::take(cur));
+            f(&v, cost);
+            if let Val::Struct(x) = v {
+                *cur = x;
+            }
+            return;
+        }
+        rec(i + 1, cur, cost, budget, alts, f);
+        if cost < budget {
+            let saved = cur[i].clone();
+            for (v, c) in &alts[i] {
+                if cost + c <= budget {
+                    cur[i] = v.clone();
+                    rec(i + 1, cur, cost + c, budget, alts, f);
+                }
+            }
+            cur[i] = saved;
+        }
+    }
+    let mut cur = base.fields().clone();
+    let saved = cur[first].clone();
+    for (v, c) in &alts[first] {
+        if *c <= budget {
+            cur[first] = v.clone();
+            rec(first + 1, &mut cur, *c, budget, &alts, f);
+        }
+    }
+    cur[first] = saved;
+}
